@@ -1,6 +1,6 @@
 """C13 - comparison operators form a coherent algebra over values.
 
-Exhaustive: every ordered pair of a 46-value universe x {==,<,<=,>,>=} x both
+Exhaustive: every ordered pair of a 54-value universe x {==,<,<=,>,>=} x both
 polarities x {query RHS, literal RHS}; `in [..]`, the four range bracket forms and
 regex search are checked against Python on sampled/enumerated operands.
 Oracle: Python semantics on the model values (ints exact, floats IEEE, strings by
@@ -25,8 +25,10 @@ U = [
     3, 2.5, "abc", [1, 2, 3], {"a": 2}, "A", 1e-3,
     # neighbours that only an exact integer / float comparison tells apart
     2 ** 53, 2 ** 53 + 1, I64MAX - 1, -(2 ** 53) - 1, 0.1 + 0.2, 0.3,
+    # strings that spell integers: ordered and compared as TEXT ("9" > "10", "007" != "7")
+    "9", "10", "007", "7", "+5", "5", "100", "20",
 ]
-assert len(U) == 46
+assert len(U) == 54
 
 
 def tclass(v):
@@ -376,7 +378,7 @@ def main(tier, seed):
     pairs_cases = res.cases
     floor = {"cases": (res.cases, 20000), "distinct_classes": (len(res.distinct), 100)}
     return core.finish("C13", tier, seed, res, t0,
-                       rule="every ordered pair of the 46-value universe x 5 operators x 2 polarities x {query,literal} RHS, "
+                       rule="every ordered pair of the 54-value universe x 5 operators x 2 polarities x {query,literal} RHS, "
                             "plus in-list, 4 range bracket forms x bound pairs, regex search vs python re; a case is distinct by "
                             "(operator, polarity, rhs form, lhs type, rhs type, status)",
                        floor=floor, exhaustive=True,
